@@ -17,8 +17,7 @@ import (
 const prattPrelude = "n1 := 2\nn2 := 3\nb1 := true\ns1 := \"abc\"\narr := [1 2 3]\narr2 := [[1 2] [3]]\nmp := {k:1 j:2}\nya:any\nya = 5\nyb:any\nyb = \"s\"\n"
 const prattUses = "print n1 n2 b1 s1 arr arr2 mp ya yb x\n"
 
-// prattPostfix adds slices, field access and type assertions to the generated expressions (the Lean Pratt
-// model does not cover them; the formatter streams do)
+// prattPostfix adds slices, field access and type assertions to the generated expressions
 var prattPostfix = false
 
 func prattAtom(rng *rand.Rand, ty string) string {
@@ -119,6 +118,36 @@ func prattGen(rng *rand.Rand, ty string, d int) string {
 
 // prattKinds: the token type names of an expression text, operands as `a`, whitespace dropped.
 func prattKinds(expr string) (string, bool) {
+	k, ok := prattKindsRaw(expr)
+	if !ok {
+		return "", false
+	}
+	// a type assertion `.( type )`: the type's tokens become one `ty`
+	ws := strings.Fields(k)
+	var out []string
+	for i := 0; i < len(ws); i++ {
+		out = append(out, ws[i])
+		if ws[i] == "DOT" && i+1 < len(ws) && ws[i+1] == "LPAREN" {
+			depth, j := 0, i+1
+			for ; j < len(ws); j++ {
+				if ws[j] == "LPAREN" {
+					depth++
+				}
+				if ws[j] == "RPAREN" {
+					depth--
+					if depth == 0 {
+						break
+					}
+				}
+			}
+			out = append(out, "LPAREN", "ty", "RPAREN")
+			i = j
+		}
+	}
+	return strings.Join(out, " "), true
+}
+
+func prattKindsRaw(expr string) (string, bool) {
 	l := lexer.New(expr)
 	var out []string
 	for i := 0; i < len(expr)+5; i++ {
@@ -154,6 +183,19 @@ func prattRender(n parser.Node) string {
 		return "(G " + prattRender(n.Expr) + ")"
 	case *parser.IndexExpression:
 		return "(" + prattRender(n.Left) + " [ " + prattRender(n.Index) + " ])"
+	case *parser.SliceExpression:
+		a, b := "", ""
+		if n.Start != nil && !isNilNode(n.Start) {
+			a = prattRender(n.Start) + " "
+		}
+		if n.End != nil && !isNilNode(n.End) {
+			b = prattRender(n.End) + " "
+		}
+		return "(" + prattRender(n.Left) + " [ " + a + ": " + b + "])"
+	case *parser.DotExpression:
+		return "(" + prattRender(n.Left) + " . a)"
+	case *parser.TypeAssertion:
+		return "(" + prattRender(n.Left) + " .( ty ))"
 	case *parser.Any:
 		return prattRender(n.Value)
 	}
@@ -162,6 +204,8 @@ func prattRender(n parser.Node) string {
 
 func c01Pratt(r *Report, d *Driver, rng *rand.Rand, n int) int {
 	done := 0
+	prattPostfix = true
+	defer func() { prattPostfix = false }()
 	for i := 0; i < n; i++ {
 		ty := []string{"num", "bool", "str", "num", "bool"}[rng.Intn(5)]
 		expr := prattGen(rng, ty, 1+rng.Intn(6))
